@@ -54,6 +54,7 @@ type vScenario struct {
 	Addr       map[string]string `json:"addr"`       // proxy name -> remote address
 	PType      map[string]string `json:"ptype"`      // proxy name -> proxy type
 	Fresh      bool              `json:"fresh"`      // start with a new BrokerContext
+	RollDuring bool              `json:"rollduring"` // herd: a metrics period ends while a wave is being served (C20)
 	Rollover   bool              `json:"rollover"`   // a metrics period ends before this scenario
 	NoRelayExt map[string]bool   `json:"norelayext"` // proxies whose poll omits AcceptedRelayPattern
 }
@@ -226,8 +227,16 @@ func (r *vRig) hook(point string, args ...interface{}) {
 		gateKey = "a.send/" + g
 	case "a.sent", "a.dropped":
 		ev["a"] = g
+	case "m.locked":
+		ev["site"] = args[0]
+		if r.ctx.metrics.lock.TryLock() {
+			r.ctx.metrics.lock.Unlock()
+			ev["locked"] = false
+		} else {
+			ev["locked"] = true
+		}
 	default:
-		// hooks of other specification modules (metrics) are not part of this trace
+		// hooks of other specification modules are not part of this trace
 		return
 	}
 	r.emit(ev)
@@ -538,8 +547,15 @@ func (r *vRig) runSteps(sc *vScenario) {
 			r.start(r.reqFromStep(st, sc), sc)
 			synctest.Wait()
 		case "Wave":
-			for _, x := range st[1].([]interface{}) {
+			for n, x := range st[1].([]interface{}) {
 				r.start(r.reqFromStep(x.([]interface{}), sc), sc)
+				if sc.RollDuring && n == 1 {
+					go func() {
+						// what logMetrics does when the measurement period ends
+						r.ctx.metrics.printMetrics()
+						r.ctx.metrics.zeroMetrics()
+					}()
+				}
 			}
 			synctest.Wait()
 		case "Tick":
